@@ -1020,6 +1020,18 @@ class World:
                     raw = self._decorate(raw, "impl%s" % ms["impl"], {"pre": [{}], "post": [{}]}, params=("self", "t"))
                 pool[ms["impl"]] = raw
             return raw
+        if kind == "cprop":
+            # functools.cached_property: computed by the first access and stored in the instance's __dict__
+            import functools as _functools
+
+            def craw(self):
+                return run.body(self)
+
+            craw.__name__ = name
+            craw.__qualname__ = "%s.%s" % (getattr(self, "_cur_pyname", None) or cname, name)
+            run.idmap[id(craw)] = owner
+            cp = _functools.cached_property(craw)
+            return cp
         if kind == "prop_ext":
             # a subclass extending a property of its base with a setter of its own: @Base.prop.setter
             import inspect as _inspect
@@ -1295,6 +1307,8 @@ class World:
                     v = v.__func__
                 if isinstance(v, property):
                     v = v.fget
+                elif hasattr(v, "func") and hasattr(v, "attrname"):
+                    v = v.func  # functools.cached_property
                 n = 0
                 while hasattr(v, "__wrapped__") and n < 20:
                     v = v.__wrapped__
@@ -1373,6 +1387,10 @@ class World:
                 if fn in k.__dict__:
                     raw = k.__dict__[fn]
                     break
+            if not isinstance(raw, property):
+                # functools.cached_property
+                tx.info = self._info(getattr(raw, "func", None), cls, "prop")
+                return (lambda: getattr(obj, fn)), self.defining_unit(cls, fn), td["obj"]
             acc = raw.fget if op == "get" else raw.fset
             tx.info = self._info(acc, cls, "prop")
             unit = self.defining_unit(cls, fn) + (".set" if op == "set" else "")
